@@ -587,7 +587,8 @@ impl Scriptlet {
             ));
         }
 
-        if let Some(prog) = self.program {
+        // a string array entry must hold at least one item (rpm rejects a count of 0)
+        if let Some(prog) = self.program.filter(|prog| !prog.is_empty()) {
             records.push(IndexEntry::new(
                 prog_tag,
                 offset,
